@@ -74,6 +74,13 @@ def scenarios(tier):
     w.add_file("r/a", _c(16, 150)); w.add_file("r/k/b", _c(16, 150)); w.add_file("store/t", _c(16, 150)); w.add_file("store/u", _c(17, 60))
     w.add_file("r/v", _c(17, 60)); w.add_symlink("r/l", "../store/t"); w.add_symlink("r/k/l2", "../../store/u"); w.add_symlink("r/k/l3", "../a")
     sc.append({"name": "report-links", "world": w.to_json(), "roots": ["r"], "gargs": ["-S"], "kind": "ssd", "knobs": KNOBS})
+    # --unique over files long enough for the suffix stage: classes of one skip the contents stage, so a file whose
+    # tail could not be read must already be gone by then (it is not "unique", it is unread)
+    w = World()
+    w.add_file("r/a", _c(18, 300)); w.add_file("r/b", _c(18, 300)); w.add_file("r/d/c", _c(18, 300)); w.add_file("r/u", _c(19, 300))
+    w.add_file("r/d/v", _c(18, 300, [(295, 1)]))
+    sc.append({"name": "unique-suffix-stage", "world": w.to_json(), "roots": ["r"], "gargs": ["--unique"], "kind": "ssd", "knobs": KNOBS,
+               "filter": {"unique": True}})
     if tier == "thorough":
         w = World()
         for i in range(3):
